@@ -122,7 +122,6 @@ def validate(
                             result[k] = v
 
                 wants_args = '*args' in str(signature)
-                used_args = []
 
                 try:
                     bound_args = signature.bind_partial(*args).arguments
@@ -132,7 +131,7 @@ def validate(
                 for k in bound_args:
                     if k == 'args' and wants_args:
                         for arg, parameter in zip(
-                                [a for a in args if a not in used_args],
+                                bound_args[k],
                                 [p for p in parameters if p.name not in used_parameter_names]
                         ):
                             print(f'Validate value {arg} with {parameter}')
@@ -142,7 +141,6 @@ def validate(
                         parameter = parameter_dict[k]
                         result[k] = parameter.validate(value=bound_args[k])
                         used_parameter_names.append(parameter.name)
-                        used_args.append(bound_args[k])
                     else:
                         if strict and k != 'self':
                             raise TooManyArguments(f'Got more arguments expected: No parameter found for argument {k}')
